@@ -5,10 +5,17 @@ C01 — bash completions of the emitted script = the grammar's meaning.
 the real bash with it on every explored command line.  Proved here: facts about the prescription
 itself that hold for every grammar and command line — what is offered always extends the typed
 prefix (before bash's stripping), stripping removes exactly the part up to the last word-break
-character, and with COMP_WORDBREAKS empty nothing is stripped.  `C01_model` (the model of the bash
-template computes `Spec.Complete.complete` on in-class grammars) is the open growth target.
+character, and with COMP_WORDBREAKS empty nothing is stripped; and over the model of the bash
+template (`Model/BashRt.lean`, compared with the real bash on every explored command line):
+`template_offers_extend` — for every table set, state, typed text and command output, every candidate
+the completion function collects extends the typed text (top-level literals, within-word
+continuations, command candidates, on whatever level they are found); `template_unmatched_silent` —
+a command line whose earlier words cannot be read yields no candidates at all.  `C01_model` (the
+model of the template computes `Spec.Complete.complete` on in-class grammars) is the open growth
+target.
 -/
 import Complgen.Spec.Complete
+import Complgen.Proofs.Offer
 namespace Complgen.Props.C01
 open Complgen Complgen.Spec.Complete
 
@@ -31,5 +38,15 @@ theorem superfluous_empty_wb (p : String) : superfluous p "" = "" := by
     | nil => rfl
     | cons x xs ih => simpa using ih
   simp only [h]
+
+/-- every candidate the template's completion function collects extends the typed text -/
+theorem template_offers_extend (S : BashRt.Script) (q : Nat) (prefix_ : String) (c : String)
+    (h : c ∈ BashRt.offer S q prefix_) : BashRt.isPrefix prefix_.toList c.toList = true :=
+  BashRt.offer_extends S q prefix_ c h
+
+/-- when the earlier words cannot be read, nothing is offered (return code 1) -/
+theorem template_unmatched_silent (S : BashRt.Script) (start : Nat) (words : List String) (prefix_ wb : String)
+    (h : BashRt.walk S start words = .unmatched) : BashRt.complete S start words prefix_ wb = none := by
+  simp [BashRt.complete, h]
 
 end Complgen.Props.C01
